@@ -38,7 +38,10 @@ def sites(body):
                     if depth == 0:
                         break
                 i += 1
-            out.append((m.group(1), norm(body[m.end():i])))
+            arg = norm(body[m.end():i])
+            if m.group(1) != "janet_mark" and norm(body[max(0, m.start() - 40):m.start()]).endswith("depth--;"):
+                arg += "@depth-1"      # typed call made one marking level lower (`if (depth) { depth--; f(x); depth++; }`)
+            out.append((m.group(1), arg))
         elif m.group(2):
             out.append(("tail-loop", norm(m.group(3))))
         elif m.group(4):
@@ -206,6 +209,14 @@ def extract(tree):
         for callee, arg in sites(body):
             table.append((f, callee, arg))
     info["markSites"] = table
+    # nested funcdefs: either the plain loop, or (since a60a379) one marking level per nested funcdef while one is left
+    fd = norm(csrc.func_body(gc, "janet_mark_funcdef"))
+    if "for(i=0;i<def->defs_length;++i){if(depth){depth--;janet_mark_funcdef(def->defs[i]);depth++;}else{janet_mark_funcdef(def->defs[i]);}}" in fd:
+        info["funcdefNestTakesLevel"] = True
+    elif "for(i=0;i<def->defs_length;++i){janet_mark_funcdef(def->defs[i]);}" in fd:
+        info["funcdefNestTakesLevel"] = False
+    else:
+        raise ExtractError("janet_mark_funcdef: loop over def->defs not recognised")
     # typed (not depth-checked) calls between the per-type mark functions: every cycle here is unbounded C recursion
     per_type = {"janet_mark_string", "janet_mark_buffer", "janet_mark_abstract", "janet_mark_array", "janet_mark_table", "janet_mark_struct",
                 "janet_mark_tuple", "janet_mark_funcenv", "janet_mark_funcdef", "janet_mark_function", "janet_mark_fiber"}
@@ -297,6 +308,8 @@ def render(tree):
     out.append("def detachStatuses : List Nat := [" + ", ".join(str(v) for v in info["detachStatuses"]) + "]")
     out.append("/-- statuses janet_check_can_resume refuses (same evaluation) -/")
     out.append("def cannotResumeStatuses : List Nat := [" + ", ".join(str(v) for v in info["cannotResume"]) + "]\n")
+    out.append("/-- janet_mark_funcdef: is a nested funcdef entered one marking level lower while a level is left (never deferred)? -/")
+    out.append("abbrev funcdefNestTakesLevel : Bool := %s\n" % ("true" if info["funcdefNestTakesLevel"] else "false"))
     out.append("/-- enum JanetType (janet.h) -/")
     for k, v in info["jtypes"].items():
         out.append("abbrev %s : Nat := %d" % ("ty" + k[len("JANET_"):].capitalize(), v))
@@ -314,4 +327,7 @@ def render(tree):
     out.append("/-- janet_init: initial gc_interval -/")
     out.append("abbrev initialGcInterval : Nat := %d\n" % info["initialGcInterval"])
     out.append("end JanetModel.Gen.GC\n")
-    return "\n".join(out), {"recursionGuard": info["recursionGuard"], "markSites": len(info["markSites"]), "memoryTypes": len(mem)}
+    return "\n".join(out), {"recursionGuard": info["recursionGuard"], "markSites": len(info["markSites"]), "memoryTypes": len(mem),
+                            "unrootallRescans": info["unrootallRescans"], "idequalsAlways": info["idequalsAlways"],
+                            "rootGrowMul": info["rootGrowMul"], "intervalMul": info["intervalMul"], "suspendSites": info["suspendSites"],
+                            "maybeCollectGe": info["maybeCollectGe"], "initialGcInterval": info["initialGcInterval"]}
